@@ -181,6 +181,7 @@ import JdProofs.RealDiff
 import JdProofs.RealDiffSet
 import JdProofs.RealDiffMerge
 import JdProofs.RealDiffKeys
+import JdProps.C07List
 
 set_option autoImplicit false
 
